@@ -384,17 +384,26 @@ def _r4(ctx, rep, eff):
             grp = lp
     if grp is None:
         raise AnalysisError("_create_order_package: grouping loop over the pending list not found")
-    tv = utext(grp.target)
     body = [utext(s) for s in grp.body]
     gdict = None
     good = False
     from sa.kinds import sbody
+    # the pending entries are (order, version) pairs: named by index or by unpacking
+    if isinstance(grp.target, ast.Tuple) and len(grp.target.elts) == 2:
+        first, second = utext(grp.target.elts[0]), utext(grp.target.elts[1])
+    else:
+        first, second = "%s[0]" % utext(grp.target), "%s[1]" % utext(grp.target)
     if len(sbody(grp.body)) == 1:
         s = sbody(grp.body)[0]
-        if isinstance(s, ast.Expr) and isinstance(s.value, ast.Call) and call_name(s.value) == "append":
+        if isinstance(s, ast.Expr) and isinstance(s.value, ast.Call) and call_name(s.value) == "append" and len(s.value.args) == 1:
             r = s.value.func.value
-            if isinstance(r, ast.Subscript) and utext(r.slice) == "%s[1]" % tv and utext(s.value.args[0]) == "%s[0]" % tv:
-                gdict = utext(r.value)
+            k_ = None
+            if isinstance(r, ast.Subscript):                      # D[version].append(order), D a defaultdict(list)
+                k_, d_ = utext(r.slice), utext(r.value)
+            elif isinstance(r, ast.Call) and call_name(r) == "setdefault" and len(r.args) == 2 and utext(r.args[1]) == "[]":
+                k_, d_ = utext(r.args[0]), recv_text(r)           # D.setdefault(version, []).append(order)
+            if k_ == second and utext(s.value.args[0]) == first:
+                gdict = d_
                 good = True
     rep.check(good, "R4c", key(f, None, "grouped by the version element, order kept"), f, grp,
               "grouping statement: %s" % body)
